@@ -58,7 +58,7 @@ func run(r *hx.Run) error {
 	h.fixed()
 	nd, ns := 700, 1200
 	if r.Thorough {
-		nd, ns = 12000, 40000
+		nd, ns = 6000, 15000
 	}
 	for i := 0; i < nd; i++ {
 		h.genDirect(i)
